@@ -473,27 +473,38 @@ Proof.
       destruct Hin as [Hin Hlv]. unfold live in Hlv. apply negb_true_iff in Hlv. eauto.
 Qed.
 
-Lemma finish_io_inv : forall s j ok, Inv s -> Inv (finish_io j ok s).
+Lemma to_phase_inv : forall s j p, Inv s -> Inv (to_phase j p s).
 Proof.
-  intros s j ok [A B C D E]. unfold finish_io. constructor; unf; auto.
+  intros s j p [A B C D E]. unfold to_phase. constructor; unf; auto.
   - intros x Hin Ho. apply in_update_phase in Hin. destruct Hin as [y [Hy [K1 [K2 [K3 K4]]]]].
     rewrite K4 in Ho. destruct (D y Hy Ho) as [ds L]. exists ds. now rewrite K1, K2, K3.
   - now rewrite live_update_phase.
 Qed.
 
+Lemma finish_io_inv : forall s j ok, Inv s -> Inv (finish_io j ok s).
+Proof. intros. now apply to_phase_inv. Qed.
+
 Lemma job_io_inv : forall s j f, Inv s -> Inv (fst (job_io j f s)) /\ capacity (fst (job_io j f s)) = capacity s.
 Proof.
   intros s j f HI. unfold job_io.
   destruct (find_job j (jobs s)) as [jb|]; [|auto].
-  destruct (j_phase jb); [|auto]. cbn [fst].
+  destruct (j_phase jb); [|auto|auto]. cbn [fst].
   destruct (j_kind jb).
-  - unfold io_page_out. destruct (lookup (j_key jb) (segs s)); [destruct f|];
-      (split; [apply finish_io_inv; eapply inv_same; eauto|reflexivity]).
+  - unfold io_page_out, finish_io. destruct (lookup (j_key jb) (segs s)); [destruct f|];
+      (split; [apply to_phase_inv; eapply inv_same; eauto|reflexivity]).
   - unfold io_page_in. destruct (j_size jb =? 0)%N; [split; [now apply finish_io_inv|reflexivity]|].
     destruct (lookup (j_key jb) (segs s)); [split; [now apply finish_io_inv|reflexivity]|].
     destruct f; [split; [apply finish_io_inv; eapply inv_same; eauto|reflexivity]|].
     destruct (lookup (j_key jb) (files s)); [|split; [apply finish_io_inv; eapply inv_same; eauto|reflexivity]].
     destruct (_ <=? _)%N; (split; [apply finish_io_inv; eapply inv_same; eauto|reflexivity]).
+Qed.
+
+Lemma job_unlink_inv : forall s j, Inv s -> Inv (fst (job_unlink j s)) /\ capacity (fst (job_unlink j s)) = capacity s.
+Proof.
+  intros s j HI. unfold job_unlink.
+  destruct (find_job j (jobs s)) as [jb|]; [|auto].
+  destruct (j_kind jb), (j_phase jb); auto. cbn [fst].
+  destruct (lookup (j_key jb) (segs s)); (split; [apply finish_io_inv; eapply inv_same; eauto|reflexivity]).
 Qed.
 
 (* the one step that breaks the accounting *)
@@ -525,7 +536,7 @@ Lemma job_cb_inv : forall s j, Inv s -> races s (JobCb j) = false ->
 Proof.
   intros s j HI Hr. unfold job_cb. unfold races in Hr.
   destruct (find_job j (jobs s)) as [jb|] eqn:Hf; [|auto].
-  destruct (j_phase jb) as [|ok] eqn:Hp; [auto|]. cbn [fst].
+  destruct (j_phase jb) as [| |ok] eqn:Hp; [auto|auto|]. cbn [fst].
   apply find_job_in in Hf. destruct Hf as [Hin Hid].
   pose proof (drop_inv s j HI) as H0.
   set (s0 := with_jobs (drop_job j (jobs s)) s) in *.
@@ -569,6 +580,7 @@ Proof.
   - now apply get_inv.
   - cbn [fst]. split; [now apply purge_inv|apply purge_capacity].
   - now apply job_io_inv.
+  - now apply job_unlink_inv.
   - now apply job_cb_inv.
   - auto.
   - auto.
@@ -682,7 +694,7 @@ Qed.
    segment; the page-out job finds the NEW segment, succeeds, and its callback credits K's size a second time *)
 Definition readd_witness : list op := [
   Add 0%N 6%N 10; Write 0%N [1;2;3;4;5;6]%N; Close 0%N None; Add 1%N 6%N 20; Purge 0%N;
-  Add 0%N 6%N 30; Write 0%N [10;11;12;13;14;15]%N; JobIo 0%N false; JobCb 0%N ].
+  Add 0%N 6%N 30; Write 0%N [10;11;12;13;14;15]%N; JobIo 0%N false; JobUnlink 0%N; JobCb 0%N ].
 
 Theorem accounting_refuted :
   exists cap ops, 0 <= cap /\
